@@ -88,6 +88,7 @@ def run(prop, tier, seed, replay, UNITS, build_unit, run_verus, scan_assumptions
     canaries = {'n': 0, 'failed_as_expected': 0}
     verified_items = 0
     extra_runs = []
+    hint_notes = []
     for u, r in results.items():
         if r['status'] != 'ok':
             undecided.append((u, r['status'], r.get('reason', '')))
@@ -119,8 +120,6 @@ def run(prop, tier, seed, replay, UNITS, build_unit, run_verus, scan_assumptions
         canaries['n'] += c.get('n', 0)
         canaries['failed_as_expected'] += c.get('failed_as_expected', 0)
         all_assumptions += [u + ': ' + a for a in scan_assumptions(gen['text'])]
-        real_fns = {e.get('fn') for e in r.get('failures', []) if e.get('clause_kind') != 'hint' and not e.get('in_prelude')
-                    and prop in (e.get('tags') or [])}
         for e in r.get('failures', []):
             if e.get('in_prelude'):
                 # a lemma of the specification text no longer proves (an extracted type changed shape): the proof is
@@ -129,11 +128,11 @@ def run(prop, tier, seed, replay, UNITS, build_unit, run_verus, scan_assumptions
                 continue
             if prop not in (e.get('tags') or []):
                 continue
-            if e.get('clause_kind') == 'hint' and e.get('fn') not in real_fns:
-                # only a ghost hint block (my scaffolding, not an obligation derived from the property) fails in this
-                # function while every contract clause and safety obligation of it still verifies: the proof is
-                # incomplete, not refuted -> tool limit, bounded fallback
-                undecided.append((u, 'proof-hint-failed', '%s @ %s' % (e.get('clause'), e.get('fn'))))
+            if e.get('clause_kind') == 'hint' and e.get('hint_status') == 'removed':
+                # a ghost hint block (scaffolding, not an obligation derived from the property) failed; the unit was
+                # verified again without it (check.strip_failed_hints) and the clauses that fail there are listed
+                # separately - the hint itself decides nothing
+                hint_notes.append('%s @ %s' % (e.get('clause'), e.get('fn')))
                 continue
             failed.setdefault(failure_obligation(e), []).append(dict(e, unit=u))
         for e in r.get('limits', []):
@@ -227,6 +226,7 @@ def run(prop, tier, seed, replay, UNITS, build_unit, run_verus, scan_assumptions
             'known_findings': [k for k in known],
             'known_finding_obligations': sorted(known_ids),
             'undecided': [list(x) for x in undecided],
+            'hints_failed_and_removed': hint_notes,
             'repo_head': git_head(REPO),
             'units': units,
             'explanation': json.load(open(os.path.join(ROOT, 'contracts', 'explanations.json'))).get(prop, ''),
